@@ -121,6 +121,27 @@ def plan(tier, ctx):
         for flush in ((0,) if quick else (0, 1, 2)):
             qs.append(_q("ST", 1, 0, 0, wrap, flush, 0, 256, nocls, tier, core=(wrap == 1 and flush == 0), witness=(wrap in (1, 3)), weight=60, timeout=(450 if quick else None)))
 
+    # ---------------------------------------------------------------- constant-run shortcut of the stateless API (lead)
+    # write_constant_compressed_stateless: whole input = N >= 8 bytes of 0x00 / 0xFF (run value symbolic)
+    cr_units = ["igzip/igzip.c", "igzip/igzip_base.c", "igzip/igzip_base_aliases.c", "igzip/hufftables_c.c",
+                "crc/crc_base.c", "crc/crc64_base.c", "crc/crc_base_aliases.c", "igzip/adler32_base.c"]
+    for n in ([8, 9, 20, 300] if quick else [8, 9, 10, 19, 20, 125, 259, 300, 600]):
+        for wrap in ([0, 1, 3] if quick else allw):
+            b = D.bound(n, wrap)
+            avs = sorted(set([0, 8, 16, 24] + list(range(max(0, b - 34), b + 10))) if n <= 20 else [b - 200, 30, 40, 50, 60, b, b + 9])
+            if quick and n > 9:
+                avs = avs[::3] + [b]
+            for av, rep in [(a, r) for a in sorted(set(a for a in avs if a >= 0)) for r in (0, 255)]:
+                qs.append(Query("CONSTRUN/n%d/%s/av%d/rep%02x" % (n, D.WRAPS[wrap], av, rep), D.R,
+                                dict(harness="harness/C01/h_construn.c", units=cr_units, vunits=D.VUNITS,
+                                     defines=["_X86INTRIN_H_INCLUDED=1", "_IMMINTRIN_H_INCLUDED=1"],
+                                     hdefines=["N=%d" % n, "WRAP=%d" % wrap, "AVAIL_OUT=%d" % av, "REP=%d" % rep],
+                                     unwindset=D.unwindset(n, exact=True, dynamic=True, nblk=2, avail=av, extra={"harness.0": n + 2, "harness.1": n + 2, "rfc_codes.0": n + 6, "rfc_codes.1": 260,
+                                                                                                  "rfc_dynamic.0": 340, "rfc_dynamic.1": 340, "rfc_dynamic.2": 340, "rfc_dynamic.3": 340, "write_constant_compressed_stateless.0": 30, "write_constant_compressed_stateless.1": 30,
+                                                                                                  "write_constant_compressed_stateless.2": 12, "detect_repeated_char_length.0": n // 8 + 3,
+                                                                                                  "detect_repeated_char_length.1": 10, "adler32_base.2": n + 2, "crc32_gzip_refl_base.0": n + 2}),
+                                     unwind=n + 8, flags=D.fs_flags(max(av, 400)), witness=(n == 8 and av == b and rep == 255), timeout=300),
+                                core=(n == 8 and av == b and rep == 255), family="CONSTRUN", weight=n / 10.0))
     return Plan("C01", "model_checking", qs,
                 functions_encoded=["isal_deflate_stateless", "isal_deflate (single call, end_of_stream=1)", "isal_deflate_init",
                                    "isal_deflate_stateless_init", "isal_deflate_set_hufftables", "isal_deflate_int_stateless",
